@@ -11,7 +11,7 @@
 (* the position of the inserted pair with exactly these bytes (0 = none),  *)
 (* eoffs / esz the offset and framed size of every entry in the payload.   *)
 (***************************************************************************)
-EXTENDS Integers, Sequences, FiniteSets
+EXTENDS Integers, Sequences, FiniteSets, Varint
 
 NB(f) == Len(f.blocks)
 NE(b) == Len(b.keys)
@@ -55,6 +55,44 @@ BlockOk(b, K) ==
             /\ b.eoffs[n] + b.esz[n] = b.payload
     /\ Len(b.table) = (IF n = 0 THEN 1 ELSE (n + K - 1) \div K)
     /\ \A j \in 2..Len(b.table) : b.table[j] = b.eoffs[(j - 1) * K + 1]
+
+(***************************************************************************)
+(* Byte-level cross-check of the decoder (small blocks carry their raw     *)
+(* uncompressed bytes): TLC parses the block itself -- count (u32 BE),     *)
+(* offset table (u64 BE each), then entries framed by two varint lengths   *)
+(* (Varint!Dec) -- and requires the decoder's entry offsets, sizes and     *)
+(* table to be exactly that, and every key to be the dictionary string it  *)
+(* was named after.                                                        *)
+(***************************************************************************)
+BE32(s, i) == 16777216 * s[i] + 65536 * s[i + 1] + 256 * s[i + 2] + s[i + 3]
+BE64Fits(s, i) == (\A j \in i..(i + 3) : s[j] = 0) /\ s[i + 4] < 128
+BE64(s, i) == BE32(s, i + 4)
+LenAt(raw, p, limit) ==            \* [n |-> decoded length, used |-> bytes of the varint] at 0-based offset p
+    LET b == SubSeq(raw, p + 1, IF p + 5 <= limit THEN p + 5 ELSE limit) IN
+    [n |-> ValueOf(Dec(b)), used |-> PackedLen(b)]
+RECURSIVE ParseEntries(_, _, _)
+ParseEntries(raw, p, payload) ==   \* sequence of [off, size, kfrom, kto] (key bytes = raw[kfrom..kto], 1-based)
+    IF p >= payload THEN <<>>
+    ELSE LET k == LenAt(raw, p, payload)
+             v == LenAt(raw, p + k.used, payload)
+             start == p + k.used + v.used
+             size == k.used + v.used + k.n + v.n IN
+         IF k.used = 0 \/ v.used = 0 \/ p + size > payload THEN << [off |-> -1, size |-> 0, kfrom |-> 1, kto |-> 0] >>
+         ELSE << [off |-> p, size |-> size, kfrom |-> start + 1, kto |-> start + k.n] >> \o ParseEntries(raw, p + size, payload)
+
+RawOk(b, dict) ==
+    b.raw = <<>> \/
+    LET raw == b.raw
+        total == Len(raw)
+        count == BE32(raw, total - 3)
+        payload == total - 4 - 8 * count
+        es == ParseEntries(raw, 0, payload) IN
+    /\ total = b.usize /\ count = b.count /\ payload = b.payload
+    /\ \A j \in 1..count : BE64Fits(raw, payload + 8 * (j - 1) + 1) /\ BE64(raw, payload + 8 * (j - 1) + 1) = b.table[j]
+    /\ Len(es) = Len(b.keys)
+    /\ \A i \in 1..Len(es) :
+         /\ es[i].off = b.eoffs[i] /\ es[i].size = b.esz[i]
+         /\ b.keys[i] > 0 => SubSeq(raw, es[i].kfrom, es[i].kto) = dict[b.keys[i]]
 
 Ascending(ks) == \A i \in 1..(Len(ks) - 1) : ks[i] < ks[i + 1]
 
